@@ -28,7 +28,8 @@ impl DateTime {
         });
         // The flag is optional and not set by default
         let atomic_reference = if let Some(node) = atomic_reference_node {
-            number_text(&node) == "1"
+            // The text is an integer like any other (+1 and 01 are the number one as well)
+            number_text(&node).parse::<i64>() == Ok(1)
         } else {
             false
         };
